@@ -562,7 +562,9 @@ impl<W: Word, B: AsRef<[W]> + AsMut<[W]>> BitFieldSliceMut<W> for BitFieldVec<W,
         );
         // Reduce len to the elements available in both vectors
         let len = Ord::min(Ord::min(len, dst.len - to), self.len - from);
-        if len == 0 {
+        // With bit width zero there is nothing to copy (and bit_len - 1 below
+        // would underflow).
+        if len == 0 || self.bit_width == 0 {
             return;
         }
         let bit_width = Ord::min(self.bit_width, dst.bit_width);
